@@ -274,39 +274,65 @@ def radialInv (p : Proj) (r : α) : α :=
   | .STG => R.ofNat 2 * R.atan2 (r / R.ofNat 2) (R.ofNat 1)
   | .ZEA => R.ofNat 2 * R.asin (r / R.ofNat 2)
 
+/-! The two directions are compositions of four invertible steps, each with its mirror image:
+      pixel  ⇄  intermediate (x, y)      `linFwd` / `linInv`            (the CD matrix)
+      (x, y) ⇄  native unit vector       `xyToNative` / `nativeToXY`    (zenithal equations, `radial`)
+      native ⇄  celestial unit vector    `rotA` both ways               (Paper II eqs. 2 and 5 with φ_p = 180°:
+                                                                          the rotation is its own inverse)
+      vector ⇄  (ra, dec)                `vecToSky` / `skyToVec` -/
+
+/-- intermediate world coordinates `(x, y)` (radians) → native unit vector
+    `(cos θ cos(φ−φ_p), cos θ sin(φ−φ_p), sin θ)`, with `φ = arg(−y, x)` (Paper II eq. 14), `φ_p = π`,
+    `θ = π/2 − z`, `z = radialInv R_θ` -/
+def xyToNative (p : Proj) (x y : α) : α × α × α :=
+  let r := R.hypot x y
+  let phi := R.atan2 x (-y)
+  let z := radialInv p r
+  let dphi := phi - R.pi
+  (R.sin z * R.cos dphi, R.sin z * R.sin dphi, R.cos z)
+
+/-- native unit vector → `(x, y)` (radians): `x = R_θ sin φ`, `y = −R_θ cos φ` (Paper II eqs. 12, 13) -/
+def nativeToXY (p : Proj) (n : α × α × α) : α × α :=
+  let phi := R.pi + R.atan2 n.2.1 n.1
+  let z := R.atan2 (R.hypot n.1 n.2.1) n.2.2
+  let r := radial p z
+  (r * R.sin phi, -(r * R.cos phi))
+
+/-- the spherical rotation between native and celestial unit vectors for a zenithal projection with
+    `φ_p = 180°` and the pole of the native system at declination `δ_p` (`sdp, cdp = sin δ_p, cos δ_p`):
+        (a, b, c) ↦ (cos δ_p · c − sin δ_p · a,  −b,  sin δ_p · c + cos δ_p · a).
+    Written on `(cos θ cos Δφ, cos θ sin Δφ, sin θ)` this is Paper II eq. 2, on
+    `(cos δ cos Δα, cos δ sin Δα, sin δ)` it is eq. 5: the SAME orthogonal, symmetric matrix both ways. -/
+def rotA (sdp cdp : α) (v : α × α × α) : α × α × α :=
+  (cdp * v.2.2 - sdp * v.1, -v.2.1, sdp * v.2.2 + cdp * v.1)
+
+/-- celestial unit vector (relative to the meridian `crval1`) → (ra, dec) in degrees -/
+def vecToSky (crval1 : α) (c : α × α × α) : α × α :=
+  (crval1 + R.degrees (R.atan2 c.2.1 c.1), R.degrees (R.atan2 c.2.2 (R.hypot c.1 c.2.1)))
+
+/-- (ra, dec) in degrees → celestial unit vector relative to the meridian `crval1` -/
+def skyToVec (crval1 ra dec : α) : α × α × α :=
+  let da := R.radians (ra - crval1)
+  let d := R.radians dec
+  (R.cos d * R.cos da, R.cos d * R.sin da, R.sin d)
+
 /-- FITS pixel (p1, p2), 1-based → (ra, dec) in degrees; ra is NOT reduced to [0, 360) -/
 def zenP2W (h : ZenHdr α) (p1 p2 : α) : α × α :=
   let xy := linFwd h p1 p2
-  let x := R.radians xy.1
-  let y := R.radians xy.2
-  let r := R.hypot x y
-  let phi := R.atan2 x (-y)
-  let z := radialInv h.proj r
-  let st := R.cos z
-  let ct := R.sin z
-  let dphi := phi - R.pi
-  let sdp := R.sin (R.radians h.crval2)
-  let cdp := R.cos (R.radians h.crval2)
-  let cx := st * cdp - ct * sdp * R.cos dphi
-  let cy := -(ct * R.sin dphi)
-  let sz := st * sdp + ct * cdp * R.cos dphi
-  (h.crval1 + R.degrees (R.atan2 cy cx), R.degrees (R.atan2 sz (R.hypot cx cy)))
+  vecToSky h.crval1
+    (rotA (R.sin (R.radians h.crval2)) (R.cos (R.radians h.crval2))
+      (xyToNative h.proj (R.radians xy.1) (R.radians xy.2)))
 
 /-- (ra, dec) in degrees → FITS pixel (p1, p2), 1-based -/
 def zenW2P (h : ZenHdr α) (ra dec : α) : α × α :=
-  let da := R.radians (ra - h.crval1)
-  let d := R.radians dec
-  let sdp := R.sin (R.radians h.crval2)
-  let cdp := R.cos (R.radians h.crval2)
-  let l := R.sin d * cdp - R.cos d * sdp * R.cos da
-  let m := -(R.cos d * R.sin da)
-  let s := R.sin d * sdp + R.cos d * cdp * R.cos da
-  let phi := R.pi + R.atan2 m l
-  let z := R.atan2 (R.hypot l m) s
-  let r := radial h.proj z
-  let x := r * R.sin phi
-  let y := -(r * R.cos phi)
-  linInv h (R.degrees x) (R.degrees y)
+  let xy := nativeToXY h.proj
+    (rotA (R.sin (R.radians h.crval2)) (R.cos (R.radians h.crval2)) (skyToVec h.crval1 ra dec))
+  linInv h (R.degrees xy.1) (R.degrees xy.2)
+
+/-- native co-latitude (radians) of the sky point (ra, dec): its angular distance from the reference point -/
+def zenColat (h : ZenHdr α) (ra dec : α) : α :=
+  let n := rotA (R.sin (R.radians h.crval2)) (R.cos (R.radians h.crval2)) (skyToVec h.crval1 ra dec)
+  R.atan2 (R.hypot n.1 n.2.1) n.2.2
 
 def zenWcs (h : ZenHdr α) : Wcs α := ⟨zenP2W h, zenW2P h⟩
 
